@@ -109,6 +109,8 @@ pub trait IterHandle {
     fn next_back(&mut self) -> Item;
     fn nth(&mut self, n: usize) -> Item;
     fn nth_back(&mut self, n: usize) -> Item;
+    /// `next()` on another OS thread, spawned and joined on the spot
+    fn hop_next(&mut self) -> Item;
     fn len(&self) -> usize;
     fn size_hint(&self) -> (usize, Option<usize>);
     fn dup(&self) -> Box<dyn IterHandle>;
@@ -231,6 +233,27 @@ pub trait IterHandle {
     fn debug_fmt(&self) -> String;
 }
 
+/// Carries a value across the spawn / join of `hop_next`. The two threads never run at the same time, so nothing is
+/// shared concurrently; the wrapper only says so to the compiler (the payload types of the corpus need not be Send).
+struct Carry<T>(T);
+unsafe impl<T> Send for Carry<T> {}
+
+fn next_on_another_thread<I: Iterator>(it: &mut I) -> Option<I::Item> {
+    let p = Carry(it as *mut I);
+    let r = std::thread::scope(|s| {
+        s.spawn(move || {
+            let p = p;
+            // SAFETY: the spawning thread is blocked in join() until this closure returns
+            Carry(unsafe { (*p.0).next() })
+        })
+        .join()
+    });
+    match r {
+        Ok(c) => c.0,
+        Err(e) => std::panic::resume_unwind(e),
+    }
+}
+
 pub struct H<E: IntoEnumIterator + 'static> {
     it: E::Iterator,
     exp: Rc<Vec<E>>,
@@ -291,6 +314,10 @@ where
     }
     fn nth_back(&mut self, n: usize) -> Item {
         let x = self.it.nth_back(n);
+        self.id(x)
+    }
+    fn hop_next(&mut self) -> Item {
+        let x = next_on_another_thread(&mut self.it);
         self.id(x)
     }
     fn len(&self) -> usize {
@@ -541,6 +568,10 @@ where
         let x = self.0.it.nth_back(n);
         self.0.id(x)
     }
+    fn hop_next(&mut self) -> Item {
+        let x = next_on_another_thread(&mut self.0.it);
+        self.0.id(x)
+    }
     fn len(&self) -> usize {
         self.0.it.len()
     }
@@ -726,6 +757,9 @@ pub enum Kind {
     Rfind,
     Position,
     Rposition,
+    /// `next()` executed on ANOTHER OS thread (spawned and joined on the spot, so the history stays sequential): the
+    /// iterator is Send, nothing about it may depend on the thread that happens to drive it
+    HopNext,
 }
 
 /// (kind, script name, takes k, takes t)
@@ -772,6 +806,7 @@ pub const KINDS: &[(Kind, &str, bool, bool)] = &[
     (Kind::Rfind, "rfind", true, false),
     (Kind::Position, "position", true, false),
     (Kind::Rposition, "rposition", true, false),
+    (Kind::HopNext, "hop_next", false, false),
 ];
 
 #[derive(Clone, Debug, PartialEq)]
@@ -865,7 +900,7 @@ pub const NAMES: &[&str] = &[
     "op_skip_back", "op_enumerate_back", "op_step_by_back", "op_v_last", "op_v_count", "op_v_fold", "op_v_rfold",
     "op_v_collect", "op_v_rev_collect", "op_v_position", "op_v_rposition", "op_v_find", "op_v_rfind", "op_clone_from",
     "op_v_cycle_take", "op_v_zip_rev", "op_v_chain_skip", "op_v_peekable", "op_v_iter_eq",
-    "op_any", "op_all", "op_find", "op_rfind", "op_position", "op_rposition",
+    "op_any", "op_all", "op_find", "op_rfind", "op_position", "op_rposition", "op_hop_next",
 ];
 const C_HUGE_FRESH: usize = 0;
 const C_HUGE_FRONT: usize = 1;
@@ -1169,6 +1204,22 @@ impl<'a> Exec<'a> {
                 Kind::Next => {
                     let s = &mut slots[hi];
                     item_op!(s.real.next(), s.model.next())
+                }
+                Kind::HopNext => {
+                    // len() here, next() over there, len() here again - with nothing in between that could refresh
+                    // whatever this thread remembers about the iterator
+                    let s = &mut slots[hi];
+                    let before = catch(|| s.real.len()).map_err(|p| fail("panic_len", "no panic".into(), format!("panic: {}", p)))?;
+                    if before != s.model.hi - s.model.lo {
+                        return Err(fail("len", (s.model.hi - s.model.lo).to_string(), before.to_string()));
+                    }
+                    item_op!(s.real.hop_next(), s.model.next());
+                    let s = &mut slots[hi];
+                    let after = catch(|| (s.real.len(), s.real.size_hint())).map_err(|p| fail("panic_len", "no panic".into(), format!("panic: {}", p)))?;
+                    let want = s.model.hi - s.model.lo;
+                    if after != (want, (want, Some(want))) {
+                        return Err(fail("len", format!("{} and ({}, Some({})) after next() on another thread", want, want, want), format!("{:?}", after)));
+                    }
                 }
                 Kind::NextBack => {
                     let s = &mut slots[hi];
@@ -1511,7 +1562,7 @@ fn gen_k(rng: &mut Rng, n: usize, rem: usize, allow_huge: bool, huge_weight: u32
 fn advance_shadow(sh: &mut Vec<Model>, n: usize, h: usize, op: &Op) {
     let k = op.k;
     match op.kind {
-        Kind::Next => {
+        Kind::Next | Kind::HopNext => {
             sh[h].next();
         }
         Kind::NextBack => {
@@ -1671,6 +1722,7 @@ pub fn gen_ops(rng: &mut Rng, n: usize) -> (Vec<Op>, bool) {
             ad(allow_adapters && allow_back, 2),         // rfind
             ad(allow_adapters, 2),                       // position
             ad(allow_adapters && allow_back, 2),         // rposition
+            1,                                           // hop_next
         ];
         let kind = KINDS[rng.weighted(&w)].0;
         let mut op = Op::new(kind, h);
